@@ -21,7 +21,7 @@ def sc_names(src):
     return [s["name"] for s in src["scs"]]
 
 
-def render_rules(src, posix=False, use_scopes=False, xseed=None, auto=()):
+def render_rules(src, posix=False, use_scopes=False, xseed=None, auto=(), vact=None):
     """section-2 text (list of lines) for the rule set; actions are VACT(k)."""
     names = sc_names(src)
     defnames = ["D%d" % (i + 1) for i in range(len(src.get("defs", [])))]
@@ -45,10 +45,10 @@ def render_rules(src, posix=False, use_scopes=False, xseed=None, auto=()):
                 pat += "/" + P.render(r["trail"], posix, defnames, xseed)
             if r["bol"]:
                 pat = "^" + pat
-            act = r.get("action") or ("{ VACT(%d) }" % k)
+            act = r.get("action") or ("{ %s }" % (vact % k if vact else "VACT(%d)" % k))
             # "auto": the feature is not requested by %option; flex has to find its use in the action text
             if auto and not r.get("action") and not r.get("bar") and not done_auto:
-                act = "{ VACT(%d) if (vnever) { %s } }" % (k, " ".join({"reject": "REJECT;", "yymore": "yymore();"}[a] for a in auto))
+                act = "{ %s if (vnever) { %s } }" % ((vact % k if vact else "VACT(%d)" % k), " ".join({"reject": "REJECT;", "yymore": "yymore();"}[a] for a in auto))
                 done_auto.append(1)
             if r.get("bar"): act = "|"          # same action as the next rule
             if use_scopes and r["scs"] and r["scs"] != [0]:
@@ -104,8 +104,13 @@ def emit_l(src, cfg):
     if src.get("ci"): opts.append("case-insensitive")
     if c["flavour"] == "r": opts.append("reentrant")
     hdr = []
+    vact = None
     if c["flavour"] == "c99":
         hdr.append('%option emit="c99"')
+        # no macros in this back end: the pre-action, the error exit and the input routine are options
+        hdr.append('%option pre-action="VTOKEV" noyypanic' + (" noyyread" if c.get("userread") else ""))
+        # yyreject() is expanded by flex in the action text itself
+        vact = "VACT3(%d, yyreject(), yyless(va_))" if (c["reject"] and c["reject"] != "no") else "VACT3(%d, (void)0, yyless(va_))"
     hdr.append("%option " + " ".join(opts))
     if c.get("heap"):
         hdr.append("%option noyyalloc noyyrealloc noyyfree")
@@ -121,7 +126,7 @@ def emit_l(src, cfg):
         tmpl = open(os.path.join(HARNESS_DIR, "inst_main.inc")).read()
         top = open(os.path.join(HARNESS_DIR, "inst_top.inc")).read()
     else:
-        tmpl = open(os.path.join(HARNESS_DIR, "harness_%s.inc" % ("c99" if c["flavour"] == "c99" else "cpp"))).read()
+        tmpl = open(os.path.join(HARNESS_DIR, "harness_cpp.inc")).read()
         top = open(os.path.join(HARNESS_DIR, "harness_top.inc")).read()
     out = []
     out += hdr
@@ -136,7 +141,7 @@ def emit_l(src, cfg):
     out.append("%}")
     out += render_defs(src, c["posix"])
     out.append("%%")
-    out += render_rules(src, c["posix"], c["scopes"], c.get("xseed"), auto=[o for o in ("reject", "yymore") if c[o] == "auto"])
+    out += render_rules(src, c["posix"], c["scopes"], c.get("xseed"), auto=[o for o in ("reject", "yymore") if c[o] == "auto"], vact=vact)
     out.append("%%")
     out.append(tmpl)
     return "\n".join(out) + "\n"
